@@ -32,7 +32,7 @@ class Rig:
 
         self.D, self.real_t, self.rng, self.N = D, real_t, rng, N
         self.h = 0.5
-        self.grid = (9,) * D
+        self.grid = (8, 12) if D == 2 else (8, 9, 13)      # (.., y, x): non-cubic
         self.vel = np.zeros((D,) + self.grid, dtype=real_t)
         self.forcing = np.zeros((D,) + self.grid, dtype=real_t)
         self.objs = {}
@@ -47,7 +47,9 @@ class Rig:
 
     def place(self, b):
         """markers on random cell centres at least two cells inside (overlapping supports between bodies welcome)"""
-        cells = self.rng.integers(2, self.grid[0] - 3, (self.D, self.N))
+        ext = [self.grid[self.D - 1 - k] for k in range(self.D)]     # extent per physical axis (x first)
+        cells = np.stack([self.rng.integers(2, n - 3, self.N) for n in ext])
+        cells[:, 0] = [n - 4 for n in ext]                           # one marker at the far end of every axis
         self.pos[b] = ((cells + 0.5) * self.h).astype(self.real_t)
 
     def set_flow(self, u):
@@ -203,12 +205,32 @@ def highlevel(chk, rng, quick):
                     clock += dt
                 elif act == "move":
                     body.velocity_collection[...] = rng.normal(size=body.velocity_collection.shape)
+                    if D == 2:
+                        body.velocity_collection[2] = 0
+                        body.omega_collection[2, 0] = rng.normal() * 3
+                    else:
+                        body.omega_collection[...] = rng.normal(size=body.omega_collection.shape)
                     body.position_collection[: D] += 0.01 * rng.normal(size=body.position_collection[:D].shape)
+                    # the body also ROTATES (directors change): marker lever arms must be recomputed by the next call
+                    from .c09 import rodrigues
+
+                    for i in range(body.director_collection.shape[2]):
+                        Qd = body.director_collection[:, :, i].copy()
+                        ax = np.array([0.0, 0.0, 1.0]) if D == 2 else Qd.T @ body.omega_collection[:, i]
+                        body.director_collection[:, :, i] = Qd @ rodrigues(ax, 0.3).T
                     continue
                 else:
                     vel[...] = rng.normal(size=vel.shape)
                     continue
                 if act in ("call", "forces"):
+                    # independent kinematics of the body's material points at the CURRENT marker positions (C09)
+                    if D == 2:
+                        Xc = body.position_collection[:2, 0:1]
+                        wz = body.director_collection[2, 2, 0] * body.omega_collection[2, 0]
+                        r = inter.forcing_grid.position_field - Xc
+                        v_ref = body.velocity_collection[:2, 0:1] + wz * np.stack([-r[1], r[0]])
+                        if np.abs(inter.forcing_grid.velocity_field - v_ref).max() > 1e-12:
+                            errs.append("marker velocities used by the interaction are not V + Omega x (x_marker - X) of the CURRENT pose")
                     want_vm = inter.lag_grid_flow_velocity_field - inter.forcing_grid.velocity_field
                     want_F = inter.virtual_boundary_stiffness_coeff * inter.lag_grid_position_mismatch_field + inter.virtual_boundary_damping_coeff * want_vm
                     if np.abs(inter.lag_grid_velocity_mismatch_field - want_vm).max() > 1e-14:
